@@ -214,6 +214,7 @@ class Exec:
             la = [l for w, l, _ in log[:k] if w == "A" and l != rt.BLOCKED]
             if la and la[-1] in (rt.PGET, rt.TIME):
                 return K_KEYERR
+        e["debug"] = {"k": k, "at": at, "failing": list(log[k]), "around": [list(x) for x in log[max(0, k - 6):at + 1]]}
         return f"monitor-fails:{e['type']}:get_stale_descrs:no-concurrent-add_job"
 
     def problem(self, key, what):
@@ -263,8 +264,9 @@ class Exec:
                     n += 1
                 passes += 1
         for e in self.run.errs:
-            self.problem(self.classify_error(e), f"monitor thread failed: {e['type']}: {e['msg']} in {e['site']} "
-                         f"(reported through on_error)")
+            key = self.classify_error(e)
+            self.problem(key, f"monitor thread failed: {e['type']}: {e['msg']} in {e['site']} "
+                         f"(reported through on_error)" + (f" {e['debug']}" if "debug" in e else ""))
         seen = self.check_batches()
         if any(lab == rt.UNEXPECTED for _, lab, _ in self.ctl.log):
             self.problem("harness:unmodelled-access", "the code touched shared state in a way the harness does not model")
@@ -404,9 +406,10 @@ class Check(PropertyCheck):
     id = "C11"
     module = "Props.C11"
     theorems = ["C11_conservation", "C11_exactly_once_at_quiescence", "C11_no_duplicates", "C11_batches_wellformed",
+                "C11_init_params_ok", "C11_submit_never_fails",
                 "C11_monitor_never_fails_refuted", "C11_monitor_keyerror_refuted", "C11_num_pending_refuted",
-                "C11_monitor_never_fails_fixed", "C11_num_pending_exact_fixed", "C11_submit_never_fails",
-                "C11_drain", "C11_init_params_ok", "C11_nonvacuous"]
+                "C11_unlocked_scan_fails", "C11_unlocked_decrement_drifts",
+                "C11_monitor_never_fails_fixed", "C11_num_pending_exact_fixed", "C11_nonvacuous"]
     extra_modules = ["Model.Arrayer"]
     allowed_axioms = []
     assumptions = [
